@@ -1984,6 +1984,99 @@ def memokey(fn):
 
 
 # --------------------------------------------------------------------------
+# SHALLOWCACHE
+# --------------------------------------------------------------------------
+def _mutable_attr_classes(m):
+    """Classes of module m whose instances hold a mutable container in an
+    attribute set by a method (``self.fields = OrderedDict()``)."""
+    out = {}
+    for cls in ast.walk(m.tree):
+        if not isinstance(cls, ast.ClassDef):
+            continue
+        for fn in cls.body:
+            if not isinstance(fn, _FUNC):
+                continue
+            for n in ast.walk(fn):
+                if isinstance(n, ast.Assign) and len(n.targets) == 1 and \
+                        isinstance(n.targets[0], ast.Attribute) and \
+                        _is_name(n.targets[0].value, "self") and (
+                            isinstance(n.value, (ast.Dict, ast.List, ast.Set,
+                                                 ast.ListComp, ast.DictComp,
+                                                 ast.SetComp)) or (
+                                isinstance(n.value, ast.Call) and
+                                isinstance(n.value.func, ast.Name) and
+                                n.value.func.id in _MUT_CTORS)):
+                    out.setdefault(cls.name, n.targets[0].attr)
+    return out
+
+
+def shallowcache(program, m, fn):
+    """A function keeps what it has built in a table that outlives the call
+    (module level, or an attribute) and hands out ``copy.copy()`` of the
+    objects kept there, while those objects are instances of a class of the
+    module that holds a mutable container in an attribute: the copy shares
+    that container with the cached object, so what one caller changes
+    through its copy is there for every later caller."""
+    out = []
+    cache = program.__dict__.setdefault("_slips_mc", {})
+    if "mc" not in cache:
+        mc_, made_ = {}, set()
+        for m2 in program.modules.values():
+            mc_.update(_mutable_attr_classes(m2))
+        for m2 in program.modules.values():
+            for c in ast.walk(m2.tree):
+                if isinstance(c, ast.Call):
+                    nm = c.func.id if isinstance(c.func, ast.Name) else (
+                        c.func.attr if isinstance(c.func, ast.Attribute)
+                        else None)
+                    if nm in mc_:
+                        made_.add(nm)
+        cache["mc"], cache["made"] = mc_, sorted(made_)
+    mc, made = cache["mc"], cache["made"]
+    # (classes of the package that hold a mutable container in an attribute
+    # and of which the package makes instances)
+    if not mc or not made:
+        return out
+    # prefer a class of this module for the message
+    here = [c for c in made if c in _mutable_attr_classes(m)]
+    made = here or made
+    # fn stores into a table that is not made in fn
+    stored = None
+    for st in _own_nodes(fn):
+        if isinstance(st, ast.Assign) and len(st.targets) == 1 and \
+                isinstance(st.targets[0], ast.Subscript):
+            root = st.targets[0].value
+            while isinstance(root, ast.Attribute):
+                root = root.value
+            if isinstance(root, ast.Name) and not any(
+                    isinstance(x, ast.Name) and x.id == root.id and
+                    isinstance(x.ctx, ast.Store) for x in _own_nodes(fn)) \
+                    and root.id not in {a.arg for a in ast.walk(fn.args)
+                                        if isinstance(a, ast.arg)}:
+                stored = st
+    if stored is None:
+        return out
+    for r in [fn]:
+        for c in _own_nodes(fn, into_lambdas=True):
+            if isinstance(c, ast.Call) and (
+                    (isinstance(c.func, ast.Attribute) and
+                     c.func.attr == "copy" and
+                     _is_name(c.func.value, "copy") and c.args) or
+                    (isinstance(c.func, ast.Name) and c.func.id == "copy"
+                     and c.args)):
+                out.append((c, "%s keeps what it builds in %s (line %d) and "
+                            "hands out copy.copy() of the objects kept "
+                            "there; instances of %s hold a mutable "
+                            "container in .%s, which a shallow copy shares "
+                            "with the cached object: a change made through "
+                            "one result shows in every later one" % (
+                                fn.name, _txt(stored.targets[0].value, 30),
+                                stored.lineno, made[0], mc[made[0]])))
+                return out
+    return out
+
+
+# --------------------------------------------------------------------------
 # CACHEDMUT
 # --------------------------------------------------------------------------
 _MUT_CTORS = {"dict", "list", "set", "bytearray", "defaultdict",
@@ -2093,7 +2186,9 @@ def findings(program, modules):
                             ("SNAPSHOT", lambda d=d: snapshot(d)),
                             ("FINALLYLOST", lambda d=d: finallylost(d)),
                             ("STALEDEP", lambda d=d: staledep(d)),
-                            ("MEMOKEY", lambda d=d: memokey(d))):
+                            ("MEMOKEY", lambda d=d: memokey(d)),
+                            ("SHALLOWCACHE", lambda d=d: shallowcache(
+                                program, m, d))):
                 for n, text in f():
                     out.append((kind, mname, q, n, text, _txt(n, 50)))
     return out, stats
@@ -2102,7 +2197,7 @@ def findings(program, modules):
 _SELFTEST = []
 KINDS = ("UNDEF", "SELFATTR", "CALLSIG", "EXHAUST", "ITERMUT", "LATEBIND",
          "INTDIV", "SHADOW", "SWALLOW", "UNBOUND", "CACHEDMUT", "SNAPSHOT",
-         "FINALLYLOST", "STALEDEP", "MEMOKEY")
+         "FINALLYLOST", "STALEDEP", "MEMOKEY", "SHALLOWCACHE")
 
 
 def selftest():
